@@ -94,6 +94,8 @@ def execute(scn, devs, bindir, scratch, expect=None):
         player = None
         env = dict(proj.env)
         env["REDO_VERIF_SOCK"] = sockpath
+        os.makedirs(str(root / "flags"), exist_ok=True)
+        env["RV_FLAGS"] = str(root / "flags")
         verdict = None
         err = None
         js = None
